@@ -287,6 +287,20 @@ def generic_foreign_families():
                 hold = ["dc", "FHold", [["b", box, ["req"], []]], [["lazy", True]] if lazy else []]
                 out.append((hold, [["obj", "FHold", [["obj", "Box", vals]]]]))
             out.append((box, [["obj", "Box", vals]]))
+    # a DEFAULT that is a member of an enum living in another module, on a field whose annotation does not name that enum
+    # (priority: int = Priority.NORMAL), under omit_default from Config / Config.dialect / a call dialect only: the generated
+    # comparison with the default must not need a name the generated function cannot reach
+    prio = ["enum", "Prio", "IntEnum", [["LOW", ["int", 1]], ["HIGH", ["int", 2]]], [["module", "shapes"]]]
+    mode = ["enum", "Mode", "StrEnum", [["ON", ["str", "on"]], ["OFF", ["str", "off"]]], [["module", "shapes"]]]
+    for ftype, en, member in ((["int"], prio, "LOW"), (["str"], mode, "ON"), (["any"], prio, "HIGH")):
+        for how in ("config", "cfg_dialect"):
+            cfgo = {"config": [["omit_default", True]], "cfg_dialect": [["dialect", [["name", "OD"], ["omit_default", True]]]]}[how]
+            for lazy in (False, True):
+                hold = ["dc", "EHold", [["n", ["int"], ["req"], []], ["p", ftype, ["val", ["enum", en[1], member]], []]],
+                        cfgo + ([["lazy", True]] if lazy else [])]
+                other = ["int", 7] if ftype != ["str"] else ["str", "x"]
+                # the enum is defined first (the shape names it), the holder refers to it through the default only
+                out.append((["tuple", [en, hold]], [["tuple", [["enum", en[1], member], ["obj", "EHold", [["int", 1], other]]]]]))
     # PEP 585 spelling (list[X] / dict[str, X] / tuple[X, int]) of containers whose element class lives in ANOTHER module and is
     # mentioned nowhere else, on fields whose (de)serialization is overridden or passed through: the generated code still names
     # the annotation (error reporting paths), so the element's module must be reachable from the generated function
